@@ -208,6 +208,7 @@ def main():
             # a run against a scratch copy (seeded-change testing) must not overwrite the real evidence
             evdir = "replays"
             ev["repo"] = common.REPO
+            os.makedirs(os.path.join(VERIF, evdir), exist_ok=True)
         with open(os.path.join(VERIF, evdir, pid + ("" if evdir == "evidence" else ".scratch-evidence") + ".json"), "w") as f:
             json.dump(ev, f, indent=1, default=jsonable)
     for ln in lines:
